@@ -129,6 +129,8 @@ Inductive Field : list Z -> list Z -> list Z -> list event -> Prop :=
 | F_m t v k : dec_upto 2 t v -> greedy 2 t k -> 1 <= v <= 12 -> Field [37; 109] t k [EvMonth v]              (* %m *)
 | F_d t v k : dec_upto 2 t v -> greedy 2 t k -> 1 <= v <= 31 -> Field [37; 100] t k [EvDay v]                (* %d *)
 | F_e t v k : dec_upto 2 t v -> greedy 2 t k -> 1 <= v <= 31 -> Field [37; 101] t k [EvDay v]                (* %e *)
+(* %e: the day as format() renders it, blank-padded: a blank and ONE digit 1..9 (%d does not take this form) *)
+| F_e_blank c v k : digit c -> v = c - 48 -> 1 <= v <= 9 -> Field [37; 101] [32; c] k [EvDay v]
 | F_H t v k : dec_upto 2 t v -> greedy 2 t k -> 0 <= v <= 23 -> Field [37; 72] t k [EvHour v]                (* %H *)
 | F_M t v k : dec_upto 2 t v -> greedy 2 t k -> 0 <= v <= 59 -> Field [37; 77] t k [EvMinute v]              (* %M *)
 | F_S t v k : dec_upto 2 t v -> greedy 2 t k -> 0 <= v <= 60 -> Field [37; 83] t k [EvSecond v]              (* %S *)
@@ -366,6 +368,17 @@ Proof.
   split; [reflexivity|]. split; [|split; [|lia]].
   - split; [auto|]. split; [lia|auto].
   - destruct Hm as [Hm|Hm]; [right; auto|left; lia].
+Qed.
+
+(* width 1: exactly one digit *)
+Lemma pi32_one dp lo hi v rest : 0 <= lo -> parse_int32 dp 1 lo hi = Some (v, rest) ->
+  exists c, dp = c :: rest /\ digit c /\ v = c - 48 /\ lo <= v <= hi.
+Proof.
+  intros Hlo H. apply parse_int_dec in H; [|reflexivity|auto].
+  destruct H as (t & -> & [Hne Hd] & Hv & Hr & Hw & _). specialize (Hw ltac:(lia)).
+  destruct t as [|c [|c' t]]; [congruence| |cbn [length] in Hw; lia].
+  inversion Hd as [|? ? Hc _]; subst. exists c. split; [reflexivity|]. split; [auto|].
+  split; [|auto]. unfold digits_val. cbn [fold_left]. lia.
 Qed.
 
 Lemma pi32_any dp lo hi v rest : 0 <= lo -> parse_int32 dp 0 lo hi = Some (v, rest) ->
@@ -829,8 +842,22 @@ Proof.
   match goal with |- context [if c =? 69 then ?X else _] => set (EB := X) end.
   case_eq c 89 N89. { try clear EB. num_field [37; 89] F_Y. }
   case_eq c 109 N109. { try clear EB. int_field pi32_upto2 [37; 109] F_m. }
-  case_eq c 100 N100. { cbn [orb]. try clear EB. int_field pi32_upto2 [37; 100] F_d. }
-  case_eq c 101 N101. { cbn [orb]. try clear EB. int_field pi32_upto2 [37; 101] F_e. }
+  case_eq c 100 N100.
+  { replace (100 =? 101) with false by reflexivity. cbn [orb andb]. int_field pi32_upto2 [37; 100] F_d. }
+  case_eq c 101 N101.
+  { replace (101 =? 101) with true by reflexivity. cbn [orb andb].
+    assert (Hold : step_ok (37 :: 101 :: f2) data s
+              (match parse_int32 data 2 (rng src_parse_range_d 0) (rng src_parse_range_d 1) with
+               | Some (v, d1) => OK (f2, Some (d1, set_week (set_tm s (tm_with (ps_tm s) 3 v)) (-1) (ps_week_start s)))
+               | None => OK (f2, None)
+               end)).
+    { int_field pi32_upto2 [37; 101] F_e. }
+    destruct data as [|x d]; [exact Hold|].
+    destruct (Z.eqb_spec x 32) as [->|Hx]; [clear Hold|exact Hold]. cbn [tl].
+    destruct (parse_int32 d 1 1 9) as [[v d1]|] eqn:E; [|apply so_none].
+    apply pi32_one in E; [|lia]. destruct E as (c & -> & Hc & Hv & Hr).
+    eapply (so_field [37; 101] _ _ [32; c] [EvDay v]);
+      [apply F_e_blank; auto | reflexivity | reflexivity | reflexivity | len_tac]. }
   cbn [orb].
   case_eq c 85 N85. { try clear EB. int_field pi32_any [37; 85] F_U. }
   case_eq c 87 N87. { try clear EB. int_field pi32_any [37; 87] F_W. }
@@ -1232,6 +1259,34 @@ Proof.
   apply (M_space 32 (b "%d") [32] (b "9")); [unfold space; lia | spc |].
   apply (M_field (b "%d") [] (b "9") [] [] [EvDay 9] []).
   { apply F_d; [upto | grd | lia]. }
+  apply M_end.
+Qed.
+
+(* --- %e also reads the day the way format() renders it: blank-padded --- *)
+Definition day_of (f d : string) : option (list Z * Z * Z) :=
+  match scan_loop nos (S (List.length (b f))) (b f) (b d) ps0 with
+  | OK (Some (r, s)) => Some (r, tm_mday (ps_tm s), tm_hour (ps_tm s))
+  | _ => None
+  end.
+Example ex5_blank_day : day_of "%Y-%m-%e" "2024-03- 9" = Some ([], 9, 0).      Proof. vm_compute. reflexivity. Qed.
+Example ex5_two_digit_day : day_of "%Y-%m-%e" "2024-03-19" = Some ([], 19, 0). Proof. vm_compute. reflexivity. Qed.
+Example ex5_blank_then_hour : day_of "%e%H" " 901" = Some ([], 9, 1).          Proof. vm_compute. reflexivity. Qed.
+Example ex5_rej_blank_zero : day_of "%Y-%m-%e" "2024-03- 0" = None.            Proof. vm_compute. reflexivity. Qed.
+Example ex5_rej_two_blanks : day_of "%Y-%m-%e" "2024-03-  9" = None.           Proof. vm_compute. reflexivity. Qed.
+Example ex5_rej_blank_two_digits : day_of "%e" " 19" = Some (b "9", 1, 0).     Proof. vm_compute. reflexivity. Qed.
+Example ex5_d_unchanged : day_of "%Y-%m-%d" "2024-03- 9" = None.               Proof. vm_compute. reflexivity. Qed.
+(* NOTE: parse() itself strips the leading whitespace of the INPUT (and format whitespace strips every blank), so a
+   blank-padded %e at the very start of the input, or right after format whitespace, never sees its blank: *)
+Example ex5_leading_blank_eaten : forall tz utc, parse_impl nos tz utc (b "%e%H") (b " 901") = OK None.
+Proof. intros. vm_compute. reflexivity. Qed.
+
+Example ex5_match : Matches (b "%m-%e") (b "03- 9") [] [EvMonth 3; EvDay 9].
+Proof.
+  apply (M_field (b "%m") (b "-%e") (b "03") (b "- 9") [] [EvMonth 3] [EvDay 9]).
+  { apply F_m; [upto | grd | lia]. }
+  apply (M_literal 45); [unfold space; lia | lia |].
+  apply (M_field (b "%e") [] (b " 9") [] [] [EvDay 9] []).
+  { apply (F_e_blank 57 9); [unfold digit; lia | reflexivity | lia]. }
   apply M_end.
 Qed.
 
